@@ -213,7 +213,7 @@ func (c *config) init() {
 	}
 
 	for _, p := range strings.Split(c.NoProxy, ",") {
-		p = strings.ToLower(strings.TrimSpace(p))
+		p = strings.TrimSpace(p)
 		if len(p) == 0 {
 			continue
 		}
@@ -266,9 +266,12 @@ func (c *config) init() {
 			matchHost = true
 			phost = "." + phost
 		}
+		// Map the name the same way canonicalAddr and useProxy map the
+		// request host: IDNA first, then ASCII lower-casing.
 		if v, err := idnaASCII(phost); err == nil {
 			phost = v
 		}
+		phost = strings.ToLower(phost)
 		c.domainMatchers = append(c.domainMatchers, domainMatch{host: phost, port: pport, matchHost: matchHost})
 	}
 }
